@@ -15,6 +15,9 @@ import (
 
 func (k Keeper) BurnValidator(ctx sdk.Ctx, address sdk.Address, severityPercentage sdk.Dec) {
 	curBurn, _ := k.getValidatorBurn(ctx, address)
+	if curBurn.IsNil() {
+		curBurn = sdk.ZeroDec()
+	}
 	newSeverity := curBurn.Add(severityPercentage)
 	k.setValidatorBurn(ctx, newSeverity, address)
 }
